@@ -23,6 +23,41 @@ func init() {
 
 func c10() []*Ob {
 	return []*Ob{
+		{Prop: "C10", ID: "C10.11", Engine: "WHO-MAY-CALL(truncating readers)", Floor: 1,
+			Desc: "the request body is read to its end: on the ingest path (packages proxyapi and proxy/bulk) the body is not wrapped in a reader that ends early without an error — no (*gzip.Reader).Multistream(false) (a gzip body of several members, which RFC 1952 defines as one stream, would end after the first member), no io.LimitReader / io.LimitedReader / io.NewSectionReader / io.CopyN — the documents behind the cut are never seen, and the bulk is answered 200 with fewer items and no error",
+			Check: func(c *Ctx) {
+				n, calls := 0, 0
+				for _, pk := range []string{"proxyapi", "proxy/bulk"} {
+					for _, fn := range c.P.FuncsInPkg(pk) {
+						for _, call := range CallsIn(fn, nil) {
+							calls++
+							switch name := CallName(call); {
+							case strings.HasSuffix(name, "gzip.Reader).Multistream"): // compress/gzip or a drop-in replacement
+								args := call.Common().Args
+								if b, ok := ConstBool(args[len(args)-1]); !ok || !b {
+									n++
+									c.Violation("stream:"+FuncName(fn)+":Multistream(false)", call.Pos(), "%s switches the gzip reader to single-member mode: a body of several concatenated members ends after the first one, without an error", FuncName(fn))
+								}
+							case name == "io.LimitReader" || name == "io.NewSectionReader" || name == "io.CopyN":
+								n++
+								c.Violation("stream:"+FuncName(fn)+":"+CallName(call), call.Pos(), "%s reads the bulk through %s, which ends the stream silently at its limit", FuncName(fn), CallName(call))
+							}
+						}
+						for _, b := range fn.Blocks {
+							for _, in := range b.Instrs {
+								if a, ok := in.(*ssa.Alloc); ok && strings.HasSuffix(a.Type().String(), "*io.LimitedReader") {
+									n++
+									c.Violation("stream:"+FuncName(fn)+":io.LimitedReader", a.Pos(), "%s builds an io.LimitedReader, which ends the stream silently at its limit", FuncName(fn))
+								}
+							}
+						}
+					}
+				}
+				c.Count("calls_scanned", calls)
+				if n == 0 && calls > 0 {
+					c.Site(token.NoPos, "no silently truncating reader on the ingest path (%d calls of proxyapi and proxy/bulk scanned)", calls)
+				}
+			}},
 		{Prop: "C10", ID: "C10.10", Engine: "PAIR(two sites)", Floor: 1,
 			Desc:  "the format with the strict parser is never tried with the lenient one: extractDocTime picks the dedicated parser by comparing the layout string, or — if it goes by position (first entry strict, the rest time.Parse) — the first entry of consts.TimeFormats is the ES format. With both relaxed, a comma-separated or over-long fraction that the strict parser rejects is accepted by time.Parse and the id carries it",
 			Check: func(c *Ctx) { timeFormatByNameOrPosition(c) }},
@@ -434,6 +469,7 @@ func c10() []*Ob {
 						// the values the id time may be (an if/else in place, or the returns of an extracted helper)
 						origins := c.P.Origins(Arg(n, 0), nil, 3, Callee("proxy/bulk.extractDocTime"))
 						hasDoc, okAll := false, true
+						var other ssa.Value
 						for _, o := range origins {
 							switch {
 							case isReqTime(o.Val):
@@ -442,7 +478,14 @@ func c10() []*Ob {
 								}
 							case DerivesFrom(o.Val, isDocTime):
 								hasDoc = true
+							default:
+								// neither this document's time nor the receive time: a remembered value, a field, a clock
+								other = o.Val
 							}
+						}
+						if other != nil {
+							c.Violation("prov:Process:id-time-third-source", n.Pos(), "the id time can be %s, which is neither what extractDocTime found in this document nor the request's receive time (a time remembered from another document is keyed by less than the whole document)", AccessPath(other)+" ("+other.String()+")")
+							continue
 						}
 						if !hasDoc || len(origins) < 2 {
 							c.Violation("prov:Process:id-time", n.Pos(), "the id time is not chosen between the document time and the receive time")
